@@ -473,7 +473,9 @@ class ExcelModel:
             if not isinstance(k, sh.Token)
         }
         nodes = {
-            k: isinstance(v, str) and v.startswith('=') and '="%s"' % v or v
+            k: isinstance(v, str) and v.startswith('=') and '="%s"' % v.replace(
+                '"', '""'
+            ) or v
             for k, v in nodes.items()
         }
         nodes = {
